@@ -951,7 +951,8 @@ def do_run(mode, sub, pipeline_seed, td, islands=1, fault=None):
             # threads running after a failure (thread schedules are the subject of C07)
             with dask.config.set(scheduler="synchronous"):
                 res = pyxel.run_mode(cal, det, pipe, with_inherited_coords=True)
-            sig = tree_sig(res, only=("/champion", "/best"))
+                # (the simulated outputs are attached lazily: reading them is part of the seeded run)
+                sig = tree_sig(res, only=("/champion", "/best", "/simulated"))
         else:
             raise KeyError(mode)
     except Exception as e:  # noqa: BLE001
